@@ -60,6 +60,42 @@ func eval(src string) (res string, fault string) {
 	return slip.ObjectString(v), ""
 }
 
+// evalEach evaluates the operations of a template one at a time against the same bound operand and
+// returns the operand's printed value after the first operation that changed it (or the operand).
+func evalEach(tmpl, a string) (string, string) {
+	// template shape: (let (BINDINGS) OP... x): split the body at top-level forms
+	body := tmpl[strings.Index(tmpl, ")) ")+3:]
+	head := tmpl[:strings.Index(tmpl, ")) ")+3]
+	depth, start := 0, -1
+	var ops []string
+	for i, c := range body {
+		switch c {
+		case '(':
+			if depth == 0 {
+				start = i
+			}
+			depth++
+		case ')':
+			depth--
+			if depth == 0 && start >= 0 {
+				ops = append(ops, body[start:i+1])
+				start = -1
+			}
+		}
+	}
+	for _, op := range ops {
+		src := fmt.Sprintf(head+"(ignore-errors "+op+") x)", a)
+		got, fault := eval(src)
+		if fault != "" {
+			continue
+		}
+		if got != a && got != "#<condition>" {
+			return got, ""
+		}
+	}
+	return a, ""
+}
+
 func floorDiv(a, b *big.Int) (*big.Int, *big.Int) {
 	q, r := new(big.Int), new(big.Int)
 	q.QuoRem(a, b, r) // truncated
@@ -200,31 +236,67 @@ func main() {
 			check(op.name+"/1", fmt.Sprintf("(%s %s)", op.name, lit(a)), op.f(a))
 		}
 	}
-	// operands are never altered: bind, operate, re-print
-	for _, opn := range []string{"+", "-", "*", "/", "floor", "1+", "1-", "abs", "isqrt", "integer-length", "gcd", "max", "min", "decf-second", "incf-second"} {
-		for _, a := range g {
-			if a.Sign() == 0 {
-				continue
-			}
-			var src string
-			switch opn {
-			case "1+", "1-", "abs", "isqrt", "integer-length":
-				if opn == "isqrt" && a.Sign() < 0 {
-					continue
+	// operands are never altered: bind, operate, re-print (integers and ratios)
+	type mut struct{ op, tmpl string } // %[1]s: operand literal
+	muts := []mut{
+		{"+", "(let ((x %[1]s) (y 3)) (+ x y) (+ y x) (+ x x) x)"},
+		{"-", "(let ((x %[1]s)) (- x) (- x 1) (- 1 x) (- x x) x)"},
+		{"*", "(let ((x %[1]s) (y 3)) (* x y) (* y x) (* x x) x)"},
+		{"/", "(let ((x %[1]s) (y 3)) (/ x) (/ x y) (/ y x) (/ x x) x)"},
+		{"floor", "(let ((x %[1]s) (y 3)) (floor x y) (floor y x) (floor x) x)"},
+		{"ceiling", "(let ((x %[1]s) (y 3)) (ceiling x y) (ceiling y x) (ceiling x) x)"},
+		{"truncate", "(let ((x %[1]s) (y 3)) (truncate x y) (truncate y x) (truncate x) x)"},
+		{"round", "(let ((x %[1]s) (y 3)) (round x y) (round y x) (round x) x)"},
+		{"mod", "(let ((x %[1]s) (y 3)) (mod x y) (mod y x) x)"},
+		{"rem", "(let ((x %[1]s) (y 3)) (rem x y) (rem y x) x)"},
+		{"1+", "(let ((x %[1]s)) (1+ x) x)"},
+		{"1-", "(let ((x %[1]s)) (1- x) x)"},
+		{"abs", "(let ((x %[1]s)) (abs x) x)"},
+		{"isqrt", "(let ((x %[1]s)) (isqrt (abs x)) (isqrt x) x)"},
+		{"integer-length", "(let ((x %[1]s)) (integer-length x) x)"},
+		{"gcd", "(let ((x %[1]s) (y 3)) (gcd x y) (gcd y x) x)"},
+		{"lcm", "(let ((x %[1]s) (y 3)) (lcm x y) (lcm y x) x)"},
+		{"max", "(let ((x %[1]s) (y 3)) (max x y) (max y x) x)"},
+		{"min", "(let ((x %[1]s) (y 3)) (min x y) (min y x) x)"},
+		{"decf-second", "(let ((x %[1]s) (y 5)) (decf y x) x)"},
+		{"incf-second", "(let ((x %[1]s) (y 5)) (incf y x) x)"},
+		{"expt", "(let ((x %[1]s)) (expt x 2) x)"},
+		{"ash", "(let ((x %[1]s)) (ash x 2) (ash x -2) x)"},
+		{"logand", "(let ((x %[1]s)) (logand x 7) (logior x 7) (logxor x 7) (lognot x) x)"},
+		{"signum", "(let ((x %[1]s)) (signum x) (evenp x) (oddp x) x)"},
+		{"numerator", "(let ((x %[1]s)) (numerator x) (denominator x) x)"},
+		{"compare", "(let ((x %[1]s) (y 3)) (< x y) (> x y) (= x y) (<= x y) (>= x y) (/= x y) (zerop x) (plusp x) (minusp x) x)"},
+		{"format-e", "(let ((x %[1]s)) (format nil \"~E ~F ~G ~D ~B ~X ~R\" x x x x x x x) x)"},
+		{"setf-ldb", "(let* ((x %[1]s) (y x)) (setf (ldb (byte 1 0) y) (if (oddp x) 0 1)) x)"},
+		{"setf-mask-field", "(let* ((x %[1]s) (y x)) (setf (mask-field (byte 1 0) y) (if (oddp x) 0 1)) x)"},
+	}
+	var operands []string
+	for _, a := range g {
+		if !a.IsInt64() {
+			operands = append(operands, lit(a))
+		}
+	}
+	operands = append(operands, "3/7", "-3/7", "18446744073709551617/3", "-5/18446744073709551617")
+	for _, m := range muts {
+		for _, a := range operands {
+			if strings.Contains(a, "/") {
+				switch m.op {
+				case "isqrt", "integer-length", "gcd", "lcm", "ash", "logand", "setf-ldb", "setf-mask-field", "mod", "rem":
+					if m.op != "mod" && m.op != "rem" {
+						continue
+					}
 				}
-				src = fmt.Sprintf("(let ((x %s)) (%s x) x)", lit(a), opn)
-			case "-":
-				src = fmt.Sprintf("(let ((x %s)) (- x) (- x 1) x)", lit(a))
-			case "decf-second":
-				src = fmt.Sprintf("(let ((x %s) (y 5)) (decf y x) x)", lit(a))
-			case "incf-second":
-				src = fmt.Sprintf("(let ((x %s) (y 5)) (incf y x) x)", lit(a))
-			default:
-				src = fmt.Sprintf("(let ((x %s) (y 3)) (%s x y) (%s y x) (%s x x) x)", lit(a), opn, opn, opn)
 			}
-			got, fault := eval(src)
-			if fault == "" && got != a.String() && got != "#<condition>" {
-				report(Failure{opn, src, got, a.String(), "mutated"})
+			src := fmt.Sprintf(m.tmpl, a)
+			// every sub-form on its own: a fault in one must not hide a change made by another
+			var got, fault string
+			if strings.HasPrefix(m.tmpl, "(let* ") {
+				got, fault = eval(src)
+			} else {
+				got, fault = evalEach(m.tmpl, a)
+			}
+			if fault == "" && got != a && got != "#<condition>" && got != "nil" {
+				report(Failure{m.op, src, got, a, "mutated"})
 			}
 		}
 	}
@@ -240,6 +312,39 @@ func main() {
 				}
 				check(opn, fmt.Sprintf("(%s %s %s)", opn, lit(a), lit(b)), want)
 			}
+		}
+	}
+	// comparisons on ratios (parts up to and beyond 64 bits): the answer of the exact rational order
+	var rats []*big.Rat
+	nums := []string{"1", "3", "5", "-5", "2147483649", "4611686018427387905", "9223372036854775807", "-9223372036854775807", "-4611686018427387904", "18446744073709551617"}
+	dens := []string{"2", "3", "7", "2147483647", "4611686018427387904", "9223372036854775807", "18446744073709551616"}
+	for _, n := range nums {
+		for _, d := range dens {
+			nn, _ := new(big.Int).SetString(n, 10)
+			dd, _ := new(big.Int).SetString(d, 10)
+			r := new(big.Rat).SetFrac(nn, dd)
+			if !r.IsInt() {
+				rats = append(rats, r)
+			}
+		}
+	}
+	for _, a := range rats {
+		for _, b := range rats {
+			c := a.Cmp(b)
+			exp := map[string]bool{"<": c < 0, "=": c == 0, ">": c > 0, "<=": c <= 0, ">=": c >= 0, "/=": c != 0}
+			for opn, w := range exp {
+				want := "nil"
+				if w {
+					want = "t"
+				}
+				check(opn, fmt.Sprintf("(%s %s %s)", opn, a.String(), b.String()), want)
+			}
+			mx, mn := a, b
+			if c < 0 {
+				mx, mn = b, a
+			}
+			check("max", fmt.Sprintf("(max %s %s)", a.String(), b.String()), mx.String())
+			check("min", fmt.Sprintf("(min %s %s)", a.String(), b.String()), mn.String())
 		}
 	}
 	os.Stdout = out
